@@ -211,7 +211,9 @@ class _Rewriter(ast.NodeTransformer):
         # locals().update() does not work in functions: havocked locals are re-bound by exec-free
         # explicit assignments generated for every local name assigned in the loop body.
         assigned = sorted(_assigned_names(node) | set(spec.rebinds))
-        head_call = ast.Call(func=ast.Name('__vc_loop_head__', ast.Load()), args=[K, loc], keywords=[])
+        targets = _assigned_names(node.target) if not isinstance(node, ast.While) else set()
+        carried = ast.Constant(tuple(n for n in sorted(_assigned_names(node)) if n not in targets))
+        head_call = ast.Call(func=ast.Name('__vc_loop_head__', ast.Load()), args=[K, loc, carried], keywords=[])
         stmts.append(ast.Assign(targets=[ast.Name('__vc_h', ast.Store())], value=head_call))
         for name in assigned:
             # x = __vc_h.get('x', x) if bound else leave unbound
@@ -391,7 +393,38 @@ def _sync(x):
     return x
 
 
+class LoopCarried:
+    """
+    The value, at the head of a loop under contract, of a local that the loop body assigns and that the contract's havoc() did not
+    state: on an arbitrary iteration it holds whatever an earlier iteration left in it.  Code that assigns it before using it (the
+    usual case: a per-iteration temporary) never looks at this object; code that READS it first depends on a loop-carried value
+    the contract says nothing about -- that is undecided (Unsupported), never a silent pass.
+    """
+    __slots__ = ('_name', '_loop')
+
+    def __init__(self, name, loop):
+        object.__setattr__(self, '_name', name)
+        object.__setattr__(self, '_loop', loop)
+
+    def _refuse(self, *a, **kw):
+        raise Unsupported(f'local {self._name!r} is read before it is assigned in an iteration of loop {self._loop}: its value is '
+                          f'carried over from an earlier iteration, and the loop contract (havoc) does not state it')
+
+    def __repr__(self):
+        return f'<loop-carried value of {self._name!r}>'
+    __bool__ = __call__ = __iter__ = __len__ = __eq__ = __ne__ = __lt__ = __le__ = __gt__ = __ge__ = _refuse
+    __add__ = __radd__ = __sub__ = __rsub__ = __mul__ = __rmul__ = __truediv__ = __rtruediv__ = __neg__ = _refuse
+    __getitem__ = __setitem__ = __contains__ = __hash__ = __await__ = __enter__ = __exit__ = __str__ = __format__ = _refuse
+
+    def __getattr__(self, name):
+        self._refuse()
+
+
 def vc_is(a, b):
+    if isinstance(a, LoopCarried):
+        a._refuse()
+    if isinstance(b, LoopCarried):
+        b._refuse()
     if isinstance(a, V.SFin):
         return a.is_(b)
     if isinstance(b, V.SFin):
@@ -659,9 +692,10 @@ class _LoopRuntime:
         self.loops = loops
         self.known = known
 
-    def head(self, k, loc):
+    def head(self, k, loc, assigned=()):
         spec = self.loops[k]
         eng = E()
+        bound_before = {n for n in assigned if n in loc}
         loc = _Locals(loc, self.known)
         if spec.at_entry is not None:
             spec.at_entry(loc)
@@ -673,7 +707,10 @@ class _LoopRuntime:
             if owner != here:
                 eng.dead = True
                 raise PathEnd(f'loop {k}: iteration already explored from another entry path with the same key')
-        new = spec.havoc(loc) or {}
+        new = dict(spec.havoc(loc) or {})
+        for n in sorted(bound_before):
+            if n not in new and not n.startswith('__vc'):
+                new[n] = LoopCarried(n, spec.name or k)     # assigned in the body, bound at the head, not stated by the contract
         loc.update(new)
         eng.assume(spec.invariant(loc), f'loop[{spec.name}] invariant')
         if spec.variant is not None:
